@@ -4,7 +4,11 @@ package sleep
 //
 //   TestZZVSleepReplay : spec -> code.  Replays a path cover of TLC's transition graph (all interleavings of
 //   Sleep / Wake calls, timer firings and the steps of several poll activities) on a real Manager:
-//     * Sleep / Wake are real calls (atomic with their OnSleep / OnWake callbacks, as in the code);
+//     * Sleep / Wake are real calls on their own goroutine; their OnSleep / OnWake callback (which runs under the
+//       state lock) is a holding point, so other threads can arrive while the call is in progress (SleepBegin/SleepEnd,
+//       WakeBegin/WakeEnd); a poll goroutine that enters Poll meanwhile is observed parked on the state lock
+//       (PollEnter) and goes on as soon as the call returns (hand-off);
+//     * Restart = a new Manager on the same data dir + LoadState (what Agent.Start does);
 //     * the real poll timer is configured 24 h away; "the timer fires" is a goroutine calling Manager.Poll(),
 //       exactly what the timer function does;
 //     * every poll activity is its own goroutine, held by the installed verifhook function at the scheduling points
@@ -45,6 +49,8 @@ type zzvSlPoll struct {
 type zzvSlState struct {
 	St      string      `json:"st"`
 	File    string      `json:"file"`
+	Lock    string      `json:"lock"`
+	Waiter  int         `json:"waiter"`
 	Tset    bool        `json:"tset"`
 	NextSet bool        `json:"nextSet"`
 	Lp      bool        `json:"lp"`
@@ -61,11 +67,13 @@ type zzvSlProj struct {
 	NextSet  bool     `json:"nextSet"`
 	Lp       bool     `json:"lp"`
 	Poll     []string `json:"poll"`
+	Lock     string   `json:"lock"`   // free | sleep | wake : a call is inside its callback (holds the state lock)
+	Waiter   int      `json:"waiter"` // poll activity parked on the state lock
 }
 
 func (s *zzvSlState) proj() zzvSlProj {
 	p := zzvSlProj{St: s.St, Status: s.St, Sleeping: s.St != "AWAKE", File: s.File, Tset: s.Tset, NextSet: s.NextSet,
-		Lp: s.Lp, Poll: []string{}}
+		Lp: s.Lp, Poll: []string{}, Lock: s.Lock, Waiter: s.Waiter}
 	for _, x := range s.Poll {
 		p.Poll = append(p.Poll, x.Pc)
 	}
@@ -73,10 +81,11 @@ func (s *zzvSlState) proj() zzvSlProj {
 }
 
 type zzvSlAct struct {
-	Act string  `json:"act"`
-	P   int     `json:"p"`
-	Res string  `json:"res"`
-	Cbs []zzvCb `json:"cbs"`
+	Act     string  `json:"act"`
+	P       int     `json:"p"`
+	Res     string  `json:"res"`
+	Cbs     []zzvCb `json:"cbs"`
+	Handoff string  `json:"handoff"`
 }
 
 type zzvSlStep struct {
@@ -110,6 +119,12 @@ type zzvSlRig struct {
 	cbs   []zzvCb
 	free  atomic.Bool // teardown: nothing is held any more
 	npoll int         // number of poll slots of the model
+	cfg   config.SleepConfig
+	// the Sleep / Wake call that is inside its callback (holds the state lock), and the poll parked on the lock
+	caller     *zzvPollAct
+	callerKind string
+	callerErr  chan error
+	waiter     int
 }
 
 var zzvSlCur atomic.Pointer[zzvSlRig]
@@ -188,11 +203,18 @@ func zzvNewSlRig(t *testing.T, npoll int) *zzvSlRig {
 	}
 	cfg := config.SleepConfig{Enabled: true, PollInterval: 24 * time.Hour, PollIntervalJitter: 0,
 		PollDuration: time.Millisecond, PersistState: true, MaxQueuedMessages: 10}
-	r := &zzvSlRig{t: t, dir: dir, npoll: npoll}
-	r.m = NewManager(cfg, dir, nil)
+	r := &zzvSlRig{t: t, dir: dir, npoll: npoll, cfg: cfg, callerKind: "free"}
+	r.newManager()
+	zzvSlCur.Store(r)
+	return r
+}
+
+// newManager creates the manager of a (new) process on the rig's data directory.
+func (r *zzvSlRig) newManager() {
+	r.m = NewManager(r.cfg, r.dir, nil)
 	r.m.SetCallbacks(Callbacks{
-		OnSleep: func() error { r.record("OnSleep"); return nil },
-		OnWake:  func() error { r.record("OnWake"); return nil },
+		OnSleep: func() error { r.record("OnSleep"); r.hold("callback"); return nil },
+		OnWake:  func() error { r.record("OnWake"); r.hold("callback"); return nil },
 		OnPoll: func() error {
 			r.record("OnPoll")
 			r.hold("callback")
@@ -200,12 +222,33 @@ func zzvNewSlRig(t *testing.T, npoll int) *zzvSlRig {
 		},
 		OnPollEnd: func() error { r.record("OnPollEnd"); return nil },
 	})
-	zzvSlCur.Store(r)
-	return r
+}
+
+// restart replaces the process: the old manager is abandoned (its far-away timer stopped, no orderly Stop: that
+// would save the state once more), a new one is created on the same directory and loads the state file exactly as
+// Agent.Start does (a load error only means "start AWAKE").
+func (r *zzvSlRig) restart() {
+	old := r.m
+	old.stateMu.Lock()
+	if old.pollTimer != nil {
+		old.pollTimer.Stop()
+	}
+	old.stateMu.Unlock()
+	r.newManager()
+	_ = r.m.LoadState()
 }
 
 func (r *zzvSlRig) destroy() {
 	r.free.Store(true)
+	if r.caller != nil {
+		r.caller.release <- struct{}{}
+		select {
+		case <-r.callerErr:
+		case <-time.After(zzvSlWait):
+			r.t.Fatal("zzv: Sleep/Wake call did not return at teardown")
+		}
+		r.caller = nil
+	}
 	for _, pa := range r.polls {
 		for pa.pc != "done" {
 			select {
@@ -241,12 +284,22 @@ func (r *zzvSlRig) fileState() string {
 
 func (r *zzvSlRig) project() zzvSlProj {
 	p := zzvSlProj{St: r.m.GetState().String(), Sleeping: r.m.IsSleeping(), File: r.fileState(), Poll: []string{}}
-	p.Status = r.m.GetStatus().State.String()
-	r.m.stateMu.RLock()
-	p.Tset = r.m.pollTimer != nil
-	p.NextSet = !r.m.nextPollTime.IsZero()
-	p.Lp = !r.m.lastPollTime.IsZero()
-	r.m.stateMu.RUnlock()
+	if r.callerKind == "free" {
+		p.Status = r.m.GetStatus().State.String()
+		r.m.stateMu.RLock()
+		p.Tset = r.m.pollTimer != nil
+		p.NextSet = !r.m.nextPollTime.IsZero()
+		p.Lp = !r.m.lastPollTime.IsZero()
+		r.m.stateMu.RUnlock()
+	} else {
+		// a Sleep / Wake call is parked inside its callback and holds the state lock: GetStatus would block; the
+		// fields are read directly (the holder does not run)
+		p.Status = p.St
+		p.Tset = r.m.pollTimer != nil
+		p.NextSet = !r.m.nextPollTime.IsZero()
+		p.Lp = !r.m.lastPollTime.IsZero()
+	}
+	p.Lock, p.Waiter = r.callerKind, r.waiter
 	for i := 0; i < r.npoll; i++ {
 		if i < len(r.polls) {
 			p.Poll = append(p.Poll, r.polls[i].pc)
@@ -300,40 +353,148 @@ func (r *zzvSlRig) advance(a zzvSlAct) string {
 	return pt
 }
 
-func (r *zzvSlRig) apply(a zzvSlAct) (res string) {
+// parkedOnLock reports whether goroutine gid is parked on the manager's state lock inside Manager.Poll.
+func zzvParkedOnLock(gid int64) bool {
+	buf := make([]byte, 1<<17)
+	n := runtime.Stack(buf, true)
+	head := fmt.Sprintf("goroutine %d [", gid)
+	for _, g := range strings.Split(string(buf[:n]), "\n\n") {
+		if !strings.HasPrefix(g, head) {
+			continue
+		}
+		nl := strings.IndexByte(g, '\n')
+		if nl < 0 {
+			return false
+		}
+		h := g[:nl]
+		return (strings.Contains(h, "Mutex.Lock") || strings.Contains(h, "semacquire")) &&
+			strings.Contains(g, "sleep.(*Manager).Poll(")
+	}
+	return false
+}
+
+func (r *zzvSlRig) startPoll() (*zzvPollAct, int64) {
+	pa := &zzvPollAct{arrive: make(chan string), release: make(chan struct{}), pc: "none"}
+	r.polls = append(r.polls, pa)
+	reg := make(chan int64)
+	go func() {
+		gid := zzvGid()
+		r.byGid.Store(gid, pa)
+		reg <- gid
+		// what the timer function does
+		if err := r.m.Poll(); err != nil {
+			r.record("PollError:" + err.Error())
+		}
+		pa.arrive <- "return"
+	}()
+	return pa, <-reg
+}
+
+func (r *zzvSlRig) errRes(err error) string {
+	switch err {
+	case nil:
+		return "ok"
+	case ErrAlreadySleeping, ErrNotSleeping:
+		return "refused"
+	default:
+		return "error:" + err.Error()
+	}
+}
+
+// apply performs one spec action; handoff is what a poll parked on the state lock did when the lock was released.
+func (r *zzvSlRig) apply(a zzvSlAct) (res string, handoff string) {
+	handoff = "none"
 	switch a.Act {
-	case "SleepCall", "WakeCall":
-		var err error
-		if a.Act == "SleepCall" {
-			err = r.call(r.m.Sleep)
-		} else {
-			err = r.call(r.m.Wake)
+	case "SleepBegin", "WakeBegin":
+		if r.caller != nil {
+			r.t.Fatalf("zzv: %s while another call is in its callback", a.Act)
 		}
-		switch err {
-		case nil:
-			res = "ok"
-		case ErrAlreadySleeping, ErrNotSleeping:
-			res = "refused"
-		default:
-			res = "error:" + err.Error()
-		}
-	case "TimerFire":
-		// the real timer is 24 h away; the firing itself has no effect before its goroutine calls Poll (PollBegin)
-		res = "ok"
-	case "PollBegin":
-		pa := &zzvPollAct{arrive: make(chan string), release: make(chan struct{}), pc: "none"}
-		r.polls = append(r.polls, pa)
+		pa := &zzvPollAct{arrive: make(chan string), release: make(chan struct{}), pc: "call"}
+		errc := make(chan error, 1)
 		reg := make(chan struct{})
+		f := r.m.Sleep
+		if a.Act == "WakeBegin" {
+			f = r.m.Wake
+		}
 		go func() {
 			r.byGid.Store(zzvGid(), pa)
 			close(reg)
-			// what the timer function does
-			if err := r.m.Poll(); err != nil {
-				r.record("PollError:" + err.Error())
-			}
-			pa.arrive <- "return"
+			errc <- f()
 		}()
 		<-reg
+		select {
+		case pt := <-pa.arrive: // inside OnSleep / OnWake, under the state lock
+			if pt != "callback" {
+				r.t.Fatalf("zzv: %s reached %q", a.Act, pt)
+			}
+			r.caller, r.callerErr, res = pa, errc, "callback"
+			r.callerKind = "sleep"
+			if a.Act == "WakeBegin" {
+				r.callerKind = "wake"
+			}
+		case err := <-errc:
+			res = r.errRes(err)
+		case <-time.After(zzvSlWait):
+			r.t.Fatalf("zzv: %s neither entered its callback nor returned", a.Act)
+		}
+	case "SleepEnd", "WakeEnd":
+		if r.caller == nil {
+			r.t.Fatalf("zzv: %s without a call in its callback", a.Act)
+		}
+		r.caller.release <- struct{}{}
+		select {
+		case err := <-r.callerErr:
+			res = r.errRes(err)
+		case <-time.After(zzvSlWait):
+			r.t.Fatalf("zzv: %s: the call did not return", a.Act)
+		}
+		r.caller, r.callerKind = nil, "free"
+		if r.waiter > 0 {
+			// the poll that was parked on the lock performs its first critical section now
+			pa := r.polls[r.waiter-1]
+			switch pt := r.await(pa); pt {
+			case "unlocked":
+				pa.pc, handoff = "unlocked", "polling"
+			case "return":
+				pa.pc, handoff = "done", "skipped"
+			default:
+				pa.pc, handoff = pt, "unexpected-point:"+pt
+			}
+			r.waiter = 0
+		}
+	case "TimerFire":
+		// the real timer is 24 h away; the firing itself has no effect before its goroutine enters Poll
+		res = "ok"
+	case "PollEnter":
+		if r.caller == nil || r.waiter != 0 {
+			r.t.Fatal("zzv: PollEnter needs a call holding the lock and no other waiter")
+		}
+		pa, gid := r.startPoll()
+		deadline := time.Now().Add(zzvSlWait)
+		for res == "" {
+			select {
+			case pt := <-pa.arrive:
+				switch pt {
+				case "unlocked":
+					pa.pc, res = "unlocked", "polling" // entered the critical section although the lock is held ?!
+				case "return":
+					pa.pc, res = "done", "skipped"
+				default:
+					pa.pc, res = pt, "unexpected-point:"+pt
+				}
+			default:
+				if zzvParkedOnLock(gid) {
+					pa.pc, res = "waiting", "waiting"
+					r.waiter = len(r.polls)
+				} else if time.Now().After(deadline) {
+					r.t.Fatal("zzv: poll goroutine neither parked on the state lock nor returned")
+				} else {
+					runtime.Gosched()
+				}
+			}
+		}
+	case "PollBegin":
+		pa, _ := r.startPoll()
 		switch pt := r.await(pa); pt {
 		case "unlocked":
 			pa.pc, res = "unlocked", "polling"
@@ -354,21 +515,24 @@ func (r *zzvSlRig) apply(a zzvSlAct) (res string) {
 	case "PollWait":
 		switch pt := r.advance(a); pt {
 		case "relock":
-			res = "ok"
+			res = a.Res // woken / asleep is the AGENT's decision at the end of its poll window (agent-level replay)
 		default:
 			res = "unexpected-point:" + pt
 		}
 	case "PollEnd":
 		switch pt := r.advance(a); pt {
 		case "return":
-			res = "ok" // refined below by the callbacks: OnPollEnd invoked = "ok", none = "woken"
+			res = "ok" // refined by the caller: OnPollEnd invoked = "ok", none = "woken"
 		default:
 			res = "unexpected-point:" + pt
 		}
+	case "Restart":
+		r.restart()
+		res = "ok"
 	default:
 		r.t.Fatalf("zzv: unknown action %q", a.Act)
 	}
-	return res
+	return res, handoff
 }
 
 func zzvSameCbs(a, b []zzvCb) bool {
@@ -415,7 +579,7 @@ func TestZZVSleepReplay(t *testing.T) {
 			if err := json.Unmarshal(in.States[st.T], &want); err != nil {
 				t.Fatal(err)
 			}
-			res := r.apply(a)
+			res, handoff := r.apply(a)
 			cbs := r.takeCbs()
 			if a.Act == "PollEnd" && res == "ok" && len(cbs) == 0 {
 				res = "woken"
@@ -433,10 +597,14 @@ func TestZZVSleepReplay(t *testing.T) {
 			if a.Cbs == nil {
 				a.Cbs = []zzvCb{}
 			}
-			if res != a.Res || !zzvSameCbs(cbs, a.Cbs) || zzvJSON(real) != zzvJSON(wp) {
+			if a.Handoff == "" {
+				a.Handoff = "none"
+			}
+			if res != a.Res || handoff != a.Handoff || !zzvSameCbs(cbs, a.Cbs) || zzvJSON(real) != zzvJSON(wp) {
 				mism++
 				zzvEmit("mismatch", map[string]any{"path": pi, "step": si, "s": prevRaw, "a": st.A, "spec_t": in.States[st.T],
 					"spec_proj": wp, "real_t": real, "spec_res": a.Res, "real_res": res, "spec_cbs": a.Cbs, "real_cbs": cbs,
+					"spec_handoff": a.Handoff, "real_handoff": handoff,
 					"prefix": zzvSlActs(path.Steps[:si+1])})
 				break
 			}
